@@ -479,6 +479,9 @@ func carryKey(r *vlib.R, flags, proto, alg int) []byte {
 			tail[i] = 0
 		}
 	}
+	if r.Chance(1, 3) {
+		tail = nil // the key ends here: the carry is still pending when the final fold runs
+	}
 	return append(key, tail...)
 }
 
@@ -906,6 +909,11 @@ func nearMissSigs(r *vlib.R, n, d *big.Int, prefix, hashed []byte) [][]byte {
 		mod(func(e []byte) { e[3+ps+r.Intn(len(prefix))] ^= 0x01 })
 	}
 	mod(func(e []byte) { e[k-1-r.Intn(len(hashed))] ^= 0x80 })
+	if len(prefix) > 0 { // the digest without its DigestInfo: 00 01 FF.. 00 || hash
+		if bare := refEM(nil, hashed, k); bare != nil {
+			ems = append(ems, bare)
+		}
+	}
 	var out [][]byte
 	for _, e := range ems {
 		s := new(big.Int).Exp(new(big.Int).SetBytes(e), d, n)
@@ -2041,6 +2049,60 @@ func (w *world) sweeps() {
 			w.out("vfy new")
 			w.out(c.line())
 		}
+	}
+	// whole messages signed under algorithms the validator does not implement, with key material the
+	// library's own routines choke on (RSAMD5 with 0..4 octets: its KeyTag indexes below the slice at
+	// two; empty and short keys of DSA, GOST, Ed448, private and reserved numbers): refused up front,
+	// never handed to the library, never a panic
+	w.out("vfy new")
+	for _, c := range []struct {
+		alg uint8
+		n   int
+	}{{1, 0}, {1, 1}, {1, 2}, {1, 3}, {1, 4}, {1, 130}, {3, 0}, {3, 2}, {6, 1}, {12, 2}, {16, 57}, {253, 2}, {254, 0}, {0, 2}, {255, 2}, {2, 2}} {
+		kb := r.Bytes(c.n)
+		for i := range kb {
+			kb[i] |= 1
+		}
+		zl := genLabels(r, 1, 2, true)
+		ol := append(genLabels(r, 1, 1, true), zl...)
+		zone := pres(joinWireName(zl))
+		var tag uint16
+		if c.alg == 1 {
+			if len(kb) >= 3 {
+				tag = uint16(kb[len(kb)-3])<<8 | uint16(kb[len(kb)-2])
+			}
+		} else {
+			tag = refKeyTag(257, 3, c.alg, kb)
+		}
+		k := &dns.DNSKEY{Hdr: dns.RR_Header{Name: zone, Rrtype: dns.TypeDNSKEY, Class: 1, Ttl: 300}, Flags: 257, Protocol: 3, Algorithm: c.alg, PublicKey: b64(kb)}
+		rrs := genRRset(r, joinWireName(ol), 1)
+		for i := range rrs {
+			rrs[i].class = 1
+		}
+		sig := &dns.RRSIG{Hdr: dns.RR_Header{Name: pres(joinWireName(ol)), Rrtype: dns.TypeRRSIG, Class: 1, Ttl: 300}, TypeCovered: 1, Algorithm: c.alg,
+			Labels: uint8(len(ol)), OrigTtl: 300, Expiration: 3500000000, Inception: 1000000000, KeyTag: tag, SignerName: zone, Signature: b64(r.Bytes(64))}
+		w.out(msgLine(zone, []*dns.DNSKEY{k}, []*dns.RRSIG{sig}, rrs, len(rrs)))
+	}
+	// every RSA algorithm on the raw (exponent > 2^31) path: a valid signature, and every near miss of the encoding
+	if len(w.wide) > 0 {
+		sg := w.wide[0]
+		w.out("rsa new")
+		for _, alg := range []uint8{5, 7, 8, 10} {
+			signed := r.Bytes(30)
+			hashed := refHash(alg, signed)
+			if sig := sg.sign(alg, signed); sig != nil {
+				w.out(fmt.Sprintf("rsa vfy %d %s %s %s %s", alg, hexStr(sg.pub), vlib.Hex(signed), vlib.Hex(hashed), vlib.Hex(sig)))
+				for _, v := range nearMissSigs(r, sg.mod.n, sg.d, refPrefix[alg], hashed) {
+					w.out(fmt.Sprintf("rsa vfy %d %s %s %s %s", alg, hexStr(sg.pub), vlib.Hex(signed), vlib.Hex(hashed), vlib.Hex(v)))
+				}
+			}
+		}
+	}
+	// key tags of multi-chunk keys whose sum carries at a chunk end and in the final fold
+	w.out("kt new")
+	for i := 0; i < 12; i++ {
+		fl, al := vlib.Pick(r, flagChoices), vlib.Pick(r, []int{5, 8, 10, 13, 253})
+		w.out(fmt.Sprintf("kt tag %d 3 %d %s", fl, al, hexStr(b64(carryKey(r, fl, 3, al)))))
 	}
 	// one full verification group per kind of key, every run: RSA narrow and wide exponent, both curves, Ed25519
 	kinds := []*signer{w.rsa[2*len(exponents)+1], w.others[0], w.others[1], w.others[2]}
